@@ -307,8 +307,11 @@ var (
 	Graphs  = []string{"ga", "gb"}
 	VIDs    = []string{"v0", "v1", "v2", "v3"}
 	EIDs    = []string{"e0", "e1", "e2", "e3"}
-	VLabels = []string{"A", "B", "C"}
-	ELabels = []string{"x", "y", "z"}
+	// label universes contain a pair where one label is a proper prefix of the other
+	// (A/AB, x/xy): index keys are built by joining components, and a scan for one
+	// term must not match the other
+	VLabels = []string{"A", "AB", "C"}
+	ELabels = []string{"x", "xy", "z"}
 )
 
 func smallData(t *rapid.T, lbl string) map[string]interface{} {
